@@ -28,13 +28,20 @@ RULE = (
     "; jumps whose CFG edge carries no label; a first block that does not start its byte interval (1-5 uncovered bytes in front of it); "
     "register_insert_function in the same context (the added function's code is no block any scope designates: no invocation may name it; "
     "the byte-level placement of the markers is not judged in those cases)"
+    "; the store on its own: the real _ModificationStore (add, modifications_for_block, resolve_offsets) with real scope objects on "
+    "every block of a generated module - scope registrations, explicit requests with replacement lengths (replace_at / delete_at) "
+    "that may overlap, position scopes on data blocks, ids in shuffled order - against the Lean model of the store "
+    "(Model/Rewrite/Store.lean), and its answers judged directly: nothing dropped or doubled, order (offset, insertion first, id), "
+    "nothing overlapping accepted, nothing non-overlapping refused"
 )
 ASSUMPTIONS = [
     "ANYWHERE resolves to the first potential offset (offset 0): the code documents 'always insert at the first potential offset' until bubbling exists; the property's 'on an instruction boundary not after the terminator' is checked on that choice",
     "regular expressions are drawn from the form `prefix.*` (fullmatch), which the specification evaluates as a prefix test",
     "exit blocks are those of gtirb_functions.Function.get_exit_blocks on the input module (a return edge, or a non-call edge leaving the function); the specification computes them from the input CFG",
 ]
-TRUSTED = ["harness/emodify.py, harness/irdump.py; capstone for the instruction sizes handed to the specification"]
+TRUSTED = ["harness/emodify.py, harness/irdump.py; capstone for the instruction sizes handed to the specification",
+           "the store model takes as parameters what other code reports about a block: gtirb-functions (function of the block, its name, entry and exit blocks), "
+           "capstone and utils._nonterminator_instructions / _is_partial_disassembly (instruction sizes in front of the terminator); these are read from the real helpers in the correspondence run and judged independently by the scope specification in the apply() run"]
 
 SIG_ZERO_SIZED = "scope-designates-a-zero-sized-code-block"
 
